@@ -12,6 +12,9 @@ pub mod pgp;
 pub mod copyright;
 pub mod wrap;
 pub mod codecs;
+pub mod derive;
+pub mod typed;
+pub mod typed_tables;
 
 #[derive(Serialize, Deserialize, Default, Debug, Clone)]
 pub struct Viol {
@@ -70,6 +73,8 @@ pub fn run_case(stage: &str, case: &Value, seed: u64) -> Outcome {
         "copyright" => copyright::run(case, seed),
         "wrap" => wrap::run(case, seed),
         "codecs" => codecs::run(case, seed),
+        "derive" => derive::run(case, seed),
+        "typed" => typed::run(case, seed),
         "rel_lossy_rt" => relsat::run_lossy_rt(case, seed),
         _ => panic!("unknown stage {}", stage),
     }
@@ -89,6 +94,7 @@ pub fn features(stage: &str, case: &Value) -> Vec<String> {
         "deb822_strings" => deb822::string_features(case),
         "deb822_docs" => deb822::doc_features(case),
         "rel_strings" => rel::string_features(case),
+        "typed" => typed::features(case),
         "rel_docs" | "rel_wrap" | "rel_lossy_rt" => rel::doc_features(case),
         _ => vec![],
     }
